@@ -41,6 +41,16 @@ CLAIMED["C08"] = dict(engine="conc", technique=CONC_TECH, ref="5/C08, 4.2", note
     text="KeyCacheConc.tla models lookup / reference / eviction at the granularity of the instrumented synchronisation points and TLC proves NoUseAfterDestroy for the code's discipline (and finds the violation when the reference is taken outside the lock); the real key caches are then run under a cooperative scheduler that makes every lock, atomic and external call a scheduling choice: bounded-preemption systematic search, PCT and random schedules over shared / per-session caches of every policy at capacity 1-2 with refresh storms and session-cache churn; TLC validates each run: no access to a destroyed secret, every operation succeeds with the right bytes, everything released once, no deadlock.")
 CLAIMED["C16"] = dict(engine="conc", technique=CONC_TECH, ref="5/C16, 4.3", note=CONC_NOTE,
     text="SessionCache.tla models Get under the wrapper mutex, the usage counter, eviction-spawned Remove goroutines waiting on the condition variable and factory close; TLC proves a held session is never torn down, one cached session per partition, teardown at most once and (liveness, under fairness) eventually - and finds the violation for a single-wake-up variant; the real session cache is explored under the cooperative scheduler (its event goroutine, Remove goroutines, condition variable and channel all scheduled) with more partitions than capacity, every policy, expiry by virtual clock and multiple holders; TLC validates each run against RefMonitor.tla.")
+SM_NOTE = "primitives failed by a shadow of internal/memcall injected via an overlay-added constructor; page state = kernel view (/proc/self/smaps); memguard-internal steps and the random source cannot be failed; sizes 1 B .. 3 pages; <=2 faults per call / behaviour; schedules at instrumented sync points, <=3 readers x 2 closers"
+CLAIMED["C11"] = dict(engine="secmem", technique="TLA+ models SecMem.tla / SecMemConc.tla checked by TLC; TLC-generated API sequences executed on real secrets with the kernel's page view validated by TLC; reader/closer schedules of the real code under the cooperative scheduler validated by TLC",
+    text="TLC enumerates every fault-free API sequence of the secret model up to the bound and each is executed on real protectedmemory and memguard secrets of 1 byte to 3 pages; after every call TLC compares the kernel's view of the secret's pages (mapped, PROT_NONE when idle, read-only inside the callback, mlock'd, excluded from core dumps, unmapped and wiped after Close), the bytes readers saw, IsClosed and the in-use counter with the model. SecMemConc.tla (readers x closers with liveness, plus a broken variant that must fail) is model-checked, and R readers (nested) x C concurrent Close calls on real secrets are explored under the cooperative scheduler; TLC validates every schedule (original bytes through read-only pages, errors only after Close began, Close waits, nothing mapped afterwards, no deadlock or crash).",
+    note=SM_NOTE, ref="5/C11, 4.5")
+CLAIMED["C12"] = dict(engine="secmem", technique="TLA+ model SecMem.tla (primitive-level, with failing primitives) checked by TLC; every transition executed on real secrets through a fault-injecting shadow of memcall; kernel page state validated by TLC",
+    text="SecMem.tla runs the primitives of each API call in code order and fails the k-th one iff k is in the call's fault set; TLC checks the C12 clauses (error on failed creation with nothing left mapped/locked/secret, failed open leaves no access and the reader count unchanged, Close retriable, never unlock/release un-wiped pages, in-use balanced) for all fault sets of size <= 2 and every transition is executed on a real secret with exactly those primitive calls failing; TLC validates result, kernel page state, wipe-before-unlock and accounting after every call.",
+    note=SM_NOTE, ref="5/C12, 4.5")
+CLAIMED["C13"] = dict(engine="metastore", technique="TLA+ model of the key table with a lagging replica (Metastore.tla) checked by TLC; TLC-generated call sequences replayed on all four metastores over semantic backend fakes; recorded runs validated by TLC",
+    text="Metastore.tla specifies insert-only Store, exact Load, greatest-created LoadLatest and read-your-writes against a lagging replica (TLC must refute read-your-writes when reads may come from the replica); TLC-generated call sequences over overlapping ids, stamps whose string and numeric order differ, binary keys, revoked flag and parent meta are executed on the memory, SQL (3 placeholder dialects), DynamoDB v1 and v2 metastores (table name, region suffix) over a database/sql driver fake and semantic DynamoDB fakes that serve non-consistent reads from a stale snapshot; TLC validates every recorded run field by field.",
+    note="backends are fakes of the documented contracts (primary-key uniqueness, conditional put, consistent read, descending query); sequences <= 4 calls quick / 6 thorough; sequential calls only", ref="5/C13, 4.6")
 PENDING = {}
 
 def main():
